@@ -380,13 +380,13 @@ func runC14(c *an.Ctx) {
 		}
 	}
 
-	c14Lookups(c)
+	c14Lookups(c, "C14-R4")
 	c14Cache(c)
 	c14Codec(c)
 }
 
 // c14Lookups extracts the decision trees of the lookup re-checks.
-func c14Lookups(c *an.Ctx) {
+func c14Lookups(c *an.Ctx, rule string) {
 	errDev, _ := c.ConstStr("profiledb", "ErrDeviceNotFound")
 	lookupRes := func(it *an.Interp, k string) an.AV {
 		switch it.Feature(k).String() {
@@ -427,7 +427,7 @@ func c14Lookups(c *an.Ctx) {
 		return o.Exit == "return" && len(o.Ret) == 3 && o.Ret[0].Kind == an.KNil && o.Ret[1].Kind == an.KNil && o.Ret[2].Kind != an.KNil
 	}
 	// linked IP
-	decide(c, "C14-R4", pdb+"ProfileByLinkedIP", an.DecideCfg{
+	decide(c, rule, pdb+"ProfileByLinkedIP", an.DecideCfg{
 		Dom: an.Domain{"p0.linkedIPToDeviceID[p2]#ok": an.Bools, "p0.linkedIPToDeviceID[p2]": {an.Sym("devid")},
 			"byid": an.Strs("ok", "devnotfound", "other"), "(dev.LinkedIP == zero:net/netip.Addr)": an.Bools, "(dev.LinkedIP == p2)": an.Bools},
 		OnCall: common,
@@ -456,7 +456,7 @@ func c14Lookups(c *an.Ctx) {
 		},
 	})
 	// dedicated IP
-	decide(c, "C14-R4", pdb+"ProfileByDedicatedIP", an.DecideCfg{
+	decide(c, rule, pdb+"ProfileByDedicatedIP", an.DecideCfg{
 		Dom: an.Domain{"p0.dedicatedIPToDeviceID[p2]#ok": an.Bools, "p0.dedicatedIPToDeviceID[p2]": {an.Sym("devid")},
 			"byid": an.Strs("ok", "devnotfound", "other"), "contains": an.Bools},
 		OnCall: func(it *an.Interp, name string, args []an.AV) (an.AV, bool) {
@@ -491,7 +491,7 @@ func c14Lookups(c *an.Ctx) {
 		},
 	})
 	// human ID
-	decide(c, "C14-R4", pdb+"ProfileByHumanID", an.DecideCfg{
+	decide(c, rule, pdb+"ProfileByHumanID", an.DecideCfg{
 		Dom: an.Domain{"p0.profiles[p2]#ok": an.Bools, "p0.profiles[p2]": {an.NonNil("profByID")},
 			"p0.humanIDToDeviceID[struct{lower:p3,profile:p2}]#ok": an.Bools, "byid": an.Strs("ok", "devnotfound", "other"), "(p3 == dev.HumanIDLower)": an.Bools},
 		OnCall: common,
@@ -520,7 +520,7 @@ func c14Lookups(c *an.Ctx) {
 		},
 	})
 	// profileByDeviceID
-	decide(c, "C14-R4", pdb+"profileByDeviceID", an.DecideCfg{
+	decide(c, rule, pdb+"profileByDeviceID", an.DecideCfg{
 		Dom: an.Domain{"p0.deviceIDToProfileID[p2]#ok": an.Bools, "p0.deviceIDToProfileID[p2]": {an.Sym("profid")},
 			"p0.profiles[profid]#ok": an.Bools, "p0.profiles[profid]": {an.NonNil("prof")},
 			"len(prof.DeviceIDs)": an.Ints(0, 1, 2), "(prof.DeviceIDs[0] == p2)": an.Bools, "(prof.DeviceIDs[1] == p2)": an.Bools,
